@@ -423,7 +423,9 @@ fn run_on_pty(env: &RealEnv, dir: &Path, args: &[String], cols: u16, rows: u16, 
     cmd.env("ASAN_OPTIONS", "detect_leaks=0:exitcode=98:abort_on_error=0").env("TSAN_OPTIONS", "exitcode=66:halt_on_error=1");
     unsafe {
         use std::os::unix::process::CommandExt;
-        cmd.pre_exec(|| {
+        let unlimited = wants_address_space(env);
+        cmd.pre_exec(move || {
+            child_address_space(unlimited);
             libc::setsid();
             libc::signal(libc::SIGINT, libc::SIG_DFL);
             libc::signal(libc::SIGQUIT, libc::SIG_DFL);
@@ -536,12 +538,17 @@ pub fn c20_pty_case(ctx: &Ctx, env: &RealEnv, dir: &Path, case: u64, seed: u64, 
         manifest.push_str(&format!("build o{}: r{}\n", i, i));
         names.push(format!("o{}", i));
     }
-    let fail_one = rng.chance(1, 4);
+    let fail_one = rng.chance(1, 2);
     if fail_one {
-        manifest.push_str("rule bad\n  command = echo ビルド失敗 😀; exit 3\n  description = failing ビ\nbuild obad: bad\n");
+        // a failing command with output, or one that says nothing at all (`test -e`, `cmp -s`, ...)
+        let cmd = *rng.pick(&["echo ビルド失敗 😀; exit 3", "exit 3", "test -e no_such_file", "printf 'no newline'; exit 1", "kill -TERM $$$$"]);
+        rep.count(if cmd.contains("exit 3") && !cmd.contains("echo") || cmd.contains("test") { "pty_failing_commands_silent" } else { "pty_failing_commands_with_output" }, 1);
+        manifest.push_str(&format!("rule bad\n  command = {}\n  description = failing ビ\nbuild obad: bad\n", cmd));
     }
-    let cols: u16 = match rng.below(8) {
+    let cols: u16 = match rng.below(9) {
+        // widths n2 does not accept (it renders for 80 columns then); 1 and 2 are below every margin
         0 => rng.range(1, 9) as u16,
+        8 => rng.range(1, 2) as u16,
         1 => 10,
         2 => 11,
         3 => 40,
@@ -587,6 +594,9 @@ pub fn c20_pty_case(ctx: &Ctx, env: &RealEnv, dir: &Path, case: u64, seed: u64, 
             .with("pty_tail", J::s(pty.2.chars().rev().take(600).collect::<String>().chars().rev().collect::<String>()))
     };
     rep.count("pty_builds", 1);
+    if cols < 10 {
+        rep.count("pty_builds_width_below_10", 1);
+    }
     if pty.4 || plain.4 {
         rep.inconclusive.push(format!("case {}: timeout (pty={}, plain={})", case, pty.4, plain.4));
         return;
@@ -634,6 +644,10 @@ pub fn c20_pty_case(ctx: &Ctx, env: &RealEnv, dir: &Path, case: u64, seed: u64, 
         let width = w1.max(resized_to.unwrap_or(0) as usize);
         if (l.starts_with('D') || l.starts_with("printf")) && l.len() > width.max(12) && l.ends_with("...") {
             rep.violation("task-line-too-wide", &format!("{:?} is {} bytes on a {}-column terminal", l, l.len(), width), mk());
+        }
+        // a width below 10 is not accepted: nothing may be cut for it (cut lines are cut for 80 columns)
+        if cols < 10 && resized_to.is_none() && (l.starts_with('D') || l.starts_with("printf")) && l.len() < 40 && l.ends_with("...") {
+            rep.violation("narrow-width-accepted", &format!("on a {}-column terminal the task line was cut to {:?}", cols, l), mk());
         }
     }
     // after a resize, frames drawn from the second one on must respect the new width
